@@ -108,6 +108,7 @@ Ops == CASE Family = "labware"    -> LabwareOps \cup DispenseCompOps
          [] Family = "transfer"   -> TransferOps
          [] Family = "distribute" -> DistributeOps \cup {o \in LabwareOps : o.op = "aspirate" /\ o.vols = Sc(1)} \cup DispenseCompOps
          [] Family = "mixed"      -> MixedOps
+         [] Family = "all"        -> LabwareOps \cup DispenseCompOps \cup TransferOps \cup DistributeOps
          [] Family = "transferq"  -> {o \in TransferOps : o.wash # "reuse" /\ o.pby \in {"auto", "destination"}
                                                           /\ (o.src # o.dst \/ o.vols = Li(<<3, 1>>))}
          [] OTHER -> {}
@@ -195,7 +196,9 @@ Do(o) == LET r == Apply(S, o) IN
          /\ prevok' = allok
          /\ tracked' = (tracked /\ o.op \notin {"add", "remove"})
          /\ nodisp' = (nodisp /\ o.op \notin {"add", "dispense"})
-         /\ chk' = StepChecks(S, o, r)
+         \* the history statement (C11) is about successful operations on histories of successful operations:
+         \* after a partially applied failure the newest entry may lag behind the volumes (see DESIGN section 6)
+         /\ chk' = [StepChecks(S, o, r) EXCEPT !.hist = (allok => @)]
          /\ depth' = depth + 1
          /\ UNCHANGED S0
 
@@ -221,7 +224,7 @@ InvBounds == \A k \in {P, Q} : VolumesWithinLimits(T.lw[k], S.vol[k])
 InvLimitsStep == chk.limits
 \* C05
 InvCompSane == \A k \in {P, Q} : CompSane(S.vol[k], S.comp[k])
-InvCompNormalised == (Family # "labware") => \A k \in {P, Q} : CompNormalisedAll(S.vol[k], S.comp[k])
+InvCompNormalised == (Family \notin {"labware", "all"}) => \A k \in {P, Q} : CompNormalisedAll(S.vol[k], S.comp[k])
 InvConserved == chk.conserved
 InvRemoveKeeps == chk.removekeeps
 \* C11
